@@ -538,8 +538,9 @@ def has_registered(m):
     return any(zoo.tname(mod) in zoo.BN + zoo.IN + ("LSTM", "MultiheadAttention") for mod in m.modules())
 
 
-def correspondence(ctx, models, variant):
-    """models: list of (spec, seed).  One driver invocation for all requests."""
+def correspondence(ctx, models, variant, only=None):
+    """models: list of (spec, seed).  One driver invocation for all requests.  `only` (replay):
+    the explicit operations [("validate",) | ("mkpriv", sel) | ("fix", kw)] instead of generated ones."""
     vb = vbits(variant)
     reqs = []   # (line, kind, idx, payload)
     built = [zoo.build(spec) for spec, _ in models]
@@ -547,17 +548,26 @@ def correspondence(ctx, models, variant):
         m = built[i]
         nb = zoo.Numbered(m)
         line = nb.line()
-        reqs.append((f"validate {vb} {line}", "validate", i, nb))
         pn = nb.param_numbers()
         rng = ctx.rng
-        sels = []
-        if pn:
-            sels.append(pn)
-            sels.append(rng.sample(pn, rng.randint(1, len(pn))))
-        sels.append((rng.sample(pn, rng.randint(0, len(pn))) if pn else []) + ["F"])
+        sels, kws = [], []
+        if only is None:
+            reqs.append((f"validate {vb} {line}", "validate", i, nb))
+            if pn:
+                sels.append(pn)
+                sels.append(rng.sample(pn, rng.randint(1, len(pn))))
+            sels.append((rng.sample(pn, rng.randint(0, len(pn))) if pn else []) + ["F"])
+            kws = [{"rbi": None, "ng": None, "extra": 0}, gen_kw(rng), gen_kw(rng)]
+        else:
+            for op in only:
+                if op[0] == "validate":
+                    reqs.append((f"validate {vb} {line}", "validate", i, nb))
+                elif op[0] == "mkpriv":
+                    sels.append(op[1])
+                else:
+                    kws.append(op[1])
         for sel in sels:
             reqs.append((f"mkpriv {vb} {len(sel)} {' '.join(map(str, sel))} {line}", "mkpriv", i, (nb, sel)))
-        kws = [{"rbi": None, "ng": None, "extra": 0}, gen_kw(rng), gen_kw(rng)]
         seen = set()
         for kw in kws:
             t = kw_tokens(kw)
@@ -779,10 +789,29 @@ def run(ctx):
             search_one(ctx, zoo.gen_spec(ctx.rng, flips=False), gen_kw(ctx.rng), ctx.rng.randrange(1 << 30))
 
 
+class _Recorder:
+    """stand-in for Ctx while replaying one correspondence case: records mismatches, writes nothing"""
+
+    def __init__(self, ctx):
+        self.ctx, self.rng, self.found = ctx, ctx.rng, []
+
+    def lean_driver(self, *a, **k):
+        return self.ctx.lean_driver(*a, **k)
+
+    def case(self, *a, **k):
+        pass
+
+    count = validated = case
+
+    def mismatch(self, component, case, impl, model, oracle=None, note=""):
+        self.found.append((component, impl, model))
+
+
 def replay(ctx, rp):
     with rig.default_dtype(torch.float64):
         fi = rp.get("failing_input") or rp.get("case") or {}
         op = fi.get("op")
+        known = {f["key"] for f in ctx.findings if f.get("status") == "known"}
         res = []
         if op == "witness":
             res = run_witness(fi["name"])
@@ -796,8 +825,20 @@ def replay(ctx, rp):
                 res = [r] if r else []
             else:
                 res = fix_oracle(m, fi["kw"], fi["seed"])
-        if not res:
+            if rp.get("kind") == "correspondence-break":
+                rec = _Recorder(ctx)
+                ops = {"validate": ("validate",), "make_private": ("mkpriv", fi.get("optimizer_params")), "fix": ("fix", fi.get("kw"))}[op]
+                correspondence(rec, [(fi["spec"], fi["seed"])], detect_variant(ctx), only=[ops])
+                for comp, impl, model in rec.found:
+                    print(f"REPRODUCED: correspondence {comp} still disagrees: implementation {str(impl)[:300]} | model {str(model)[:300]}")
+                    ctx.violations.append("corr-" + comp)
+                if not rec.found:
+                    print("correspondence agrees on this tree")
+        if not res and not ctx.violations:
             print("not reproduced on this tree")
         for r in res:
-            print("REPRODUCED:", r[0], r[1][:400])
-            ctx.violations.append(r[0])
+            if r[0] in known:
+                print("KNOWN-FINDING (reproduced):", r[0], r[1][:400])
+            else:
+                print("REPRODUCED:", r[0], r[1][:400])
+                ctx.violations.append(r[0])
